@@ -336,6 +336,16 @@ func rsemScenario(c *Ctx, sh *shard, scen int) {
 		cancel()
 	}()
 
+	// partition ids for this scenario: a few from a pool that includes ids which collide with
+	// (partition, key) pairs under naive key encodings ("a" + "n" vs "an", "a|n", ...)
+	e2ePartPool := []string{"", "a", "b", "an", "a|n", "a:n", "a/n", "a\x00n", "a,n", "ab"}
+	parts := make([]string, 4)
+	for i := range parts {
+		parts[i] = e2ePartPool[c.intn(len(e2ePartPool))]
+	}
+	if c.chance(0.5) {
+		parts[0], parts[1] = "a", e2ePartPool[3+c.intn(6)]
+	}
 	nRows := 8 + c.intn(18)
 	rows := make([]*e2eRow, nRows)
 	near := map[string][]int64{}
@@ -346,10 +356,15 @@ func rsemScenario(c *Ctx, sh *shard, scen int) {
 		delete(m, "p")
 		delete(m, "n")
 		if usePartition {
-			tr.partition = partitionPool[c.intn(4)]
+			tr.partition = parts[c.intn(len(parts))]
 			m["p"] = tr.partition
 		}
-		if c.chance(0.7) {
+		// rows of partition "a" tend to carry the minmax key, rows of colliding ids tend not to
+		pn := 0.7
+		if tr.partition != "a" && tr.partition != "" && tr.partition != "b" {
+			pn = 0.25
+		}
+		if c.chance(pn) {
 			nv := c.genNum()
 			for !nv.jsonOK {
 				nv = c.genNum()
@@ -401,7 +416,7 @@ func rsemScenario(c *Ctx, sh *shard, scen int) {
 			delete(m, "p")
 			delete(m, "n")
 			if usePartition {
-				tr.partition = partitionPool[c.intn(4)]
+				tr.partition = parts[c.intn(len(parts))]
 				m["p"] = tr.partition
 			}
 			if c.chance(0.7) {
